@@ -15,7 +15,7 @@ from tools.lib import reduce_suite as R
 LEVEL = "proof"
 
 
-def real_tree(n, k, method):
+def real_tree(n, k, method, batch=False):
     """run a real reduction over n single-element blocks (one group, value 2**i in block i) with
     split_every=k and record, by wrapping flox's combine function, the tree that was evaluated"""
     import dask
@@ -53,9 +53,13 @@ def real_tree(n, k, method):
         labels = np.zeros(n, dtype=int)
         with warnings.catch_warnings(), dask.config.set(scheduler="sync", split_every=k):
             warnings.simplefilter("ignore")
-            r, _ = flox.groupby_reduce(da.from_array(vals, chunks=1), labels, func="sum", method=method,
-                                       engine="numpy", expected_groups=np.array([0]))
-            val = float(r.compute()[0])
+            if batch:
+                # a leading axis that is kept (one block): the tree must still be built from the n blocks of the REDUCED axis
+                arr = da.from_array(np.stack([vals, vals]), chunks=((2,), (1,) * n))
+            else:
+                arr = da.from_array(vals, chunks=1)
+            r, _ = flox.groupby_reduce(arr, labels, func="sum", method=method, engine="numpy", expected_groups=np.array([0]))
+            val = float(np.asarray(r.compute()).reshape(-1)[0])
     finally:
         fc._simple_combine = orig
     assert len(roots) == 1, roots
@@ -81,17 +85,19 @@ def max_arity(t):
 
 def k4_trees(run, nmax):
     cases, shapes = [], []
-    for method in ("map-reduce", "cohorts"):
+    for method, batch in (("map-reduce", False), ("cohorts", False), ("map-reduce", True), ("cohorts", True)):
         for n in range(1, nmax + 1):
             ks = sorted(set(range(2, min(n, 9) + 1)) | {n, max(2, n // 2)}) if n >= 2 else [2]
+            if batch:
+                ks = [k for k in ks if k in (2, 3, 4, n)]
             for k in ks:
-                tree, val = real_tree(n, k, method)
+                tree, val = real_tree(n, k, method, batch)
                 lv = leaves(tree)
-                run.count(f"tree|{method}|{n}|{k}", n > k)
+                run.count(f"tree|{method}|{n}|{k}|{batch}", n > k)
                 ok = lv == list(range(n)) and max_arity(tree) <= max(k, 1) and val == float(2 ** n - 1)
                 if not ok:
                     run.violation({"property": "C03", "kind": "reduction tree does not cover the blocks exactly once in order",
-                                   "n_blocks": n, "split_every": k, "method": method, "leaves": lv, "value": val,
+                                   "n_blocks": n, "split_every": k, "method": method, "leading_kept_axis": batch, "leaves": lv, "value": val,
                                    "how_to_run": "tools/props/c03.py:real_tree(n, k, method)"}, tag="tree")
                 cases.append((n, k, ser(tree), method))
     run.sample({"tree_case": {"n": cases[-1][0], "split_every": cases[-1][1], "method": cases[-1][3], "serialised": cases[-1][2]}})
